@@ -152,6 +152,8 @@ def impl(case):
                 from urllib3.http2.connection import HTTP2Connection
                 c = HTTP2Connection("h.example", 443)
                 (name, value), = case["headers"]
+                if case.get("bvalue"):
+                    value = value.encode("utf-8")          # the same value handed over as bytes: the same checks apply
                 c.putheader(name, value)
                 kept = list(c._headers)
                 _STASH[("h2", id(case))] = kept
@@ -579,6 +581,8 @@ def cases(rng, tier):
             out.append(h2case(n, v))
     for _ in range(1500 if tier == "quick" else 40000):
         out.append(h2case(spice(rng, spice(rng, rng.choice(NAMES), 0.4), 0.2), spice(rng, spice(rng, rng.choice(VALUES), 0.4), 0.2)))
+    for c in [c for c in out if c["level"] == 4][::3]:
+        out.append(dict(c, bvalue=True))
     # the CONNECT request through a proxy: hostile text in the host of an https URL and in the proxy headers
     def tcase(h, port, hs):
         return {"level": 5, "method": "GET", "thost": h, "tport": port, "url": "https://" + h + (":%d" % port if port else "") + "/a", "headers": hs}
